@@ -89,7 +89,11 @@ func (s *service) Evaluate(ctx context.Context, request *pb.EvaluateRequestProto
 }
 
 func (s *service) ListWorlds(ctx context.Context, request *pb.ListWorldsRequestProto) (*pb.ListWorldsResponseProto, error) {
+	// Changes are applied under the write lock, and may delete and recreate
+	// a world, which we shouldn't see as missing.
+	s.lock.RLock()
 	ids := s.worlds.ListWorlds()
+	s.lock.RUnlock()
 	response := &pb.ListWorldsResponseProto{
 		Ids: make([]*pb.FeatureIDProto, len(ids)),
 	}
